@@ -594,10 +594,20 @@ class Tuner(Client):
                     w.stats["fault:heal"] += 1
                     return {"op": "param_set", "p": pid, "value": v,
                             "heal": True}
+        if getattr(self, "freeze_next", None) is not None:
+            cid, self.freeze_next = self.freeze_next, None
+            if w.has("c", cid) and len(self.own_circuits()) < cfg["max_circuits"] + 2:
+                # a frozen copy taken while a parameter holds an invalid value
+                return {"op": "copy", "c": cid, "freeze": True,
+                        "out": w.new_id("c")}
         if pids and cfg.get("faults") and r.random() < cfg.get("p_poison", 0.1):
             pid = self.pick(pids)
             w.stats["fault:poison"] += 1
             self.poisoned.append(pid)
+            holders = [c for c, m in w.meta["c"].items()
+                       if pid in m.get("params", ()) and not isinstance(c, str)]
+            if holders and r.random() < 0.35:
+                self.freeze_next = self.pick(holders)
             return {"op": "param_set", "p": pid, "poison": True,
                     "value": self.poison_value(w.meta["p"][pid].get("role", "phi"))}
         if len(pids) < cfg["max_params"] and (len(pids) < 3 or r.random() < 0.1):
